@@ -5,7 +5,7 @@ import random
 
 import numpy as np
 
-from vk.common import BoundedPart
+from vk.common import sseed,  BoundedPart
 from spec import evaln
 from . import gen_circuits as G, logic_drv as D
 
@@ -65,7 +65,7 @@ def part(tier, seed, ms=(2, 4, 8)):
         if D.has_arity_gap(c):
             continue        # arity-by-name vs arity-by-highest-pin is C01/C02's finding; keep it out of the callback oracle
         desc = G.describe(c)
-        rng = random.Random(hash(str(sig)) & 0xfffff)
+        rng = random.Random(sseed(str(sig)) & 0xfffff)
         for m in ms:
             n = rng.choice([1, 3, 8, 9])
             stim = D.stimulus(rng, c, m, n)
